@@ -38,15 +38,25 @@ MIN_NONTRIVIAL = 200
 
 def plan(tier, seed):
     if tier == "quick":
-        kinds = {"raw": 4000, "smooth": 900}
+        kinds = {"raw": 4000, "smooth": 900, "big": 2}
         per = 500
     else:
-        kinds = {"raw": 250000, "smooth": 40000}
+        kinds = {"raw": 250000, "smooth": 40000, "big": 48}
         per = 8000
     return common.shards(kinds, per_shard=per, tier=tier, seed=seed)
 
 
 def gen(rng, kind, tier):
+    if kind == "big":
+        # grids of the size of real simulations (10^5 cells) with the default smoothing and wave numbers
+        dim = int(rng.choice([2, 2, 3]))
+        shape = [int(rng.integers(280, 340)), int(rng.integers(240, 300))] if dim == 2 else [int(rng.integers(40, 52)) for _ in range(3)]
+        h = [float(np.round(rng.uniform(0.5, 2.0), 3)) for _ in range(dim)]
+        spec = {"family": "cart", "bounds": [[0.0, h[a] * shape[a]] for a in range(dim)], "shape": shape, "periodic": [True] * dim}
+        return {"grid": spec, "field": {"type": "wave", "seed": int(rng.integers(1 << 30)),
+                                        "m": [int(rng.integers(3, 12))] + [int(rng.integers(0, 3)) for _ in range(dim - 1)],
+                                        "amp": 1.0, "offset": 0.3, "phase": float(rng.uniform(0, 6.28))},
+                "perm_seed": int(rng.integers(1 << 30))}
     dim = int(rng.choice([1, 2, 2, 3]))
     nmax = {1: 12, 2: 12, 3: 7}[dim]
     spec = geom.rand_cart_spec(rng, dim, nmin=2, nmax=nmax, hmin=0.2, hmax=3.0, periodic=[True] * dim)
@@ -180,6 +190,31 @@ def run(case, rec):
     label = f"grid={spec} field={case['field']}"
     sf = droplets.get_structure_factor
     kind = case["kind"]
+    if kind == "big":
+        data = data + 0.05 * np.random.default_rng(case["perm_seed"]).normal(size=shape)  # not a pure wave
+        c = common.monitored(rec, "get_structure_factor", sf, field_of(spec, data))
+        if not rec.check(c.ok, "no-exception", f"get_structure_factor raised {common.exc_text(c.exc) if c.exc else ''}; {label}"):
+            rec.evaluated(nontrivial=False)
+            return
+        k, s = (np.asarray(x, float) for x in c.result)
+        smax = max(float(np.nanmax(np.abs(s), initial=0)), 1e-300)
+        perm = list(range(dim))[::-1] if dim == 2 else [1, 2, 0]
+        sp2 = {"family": "cart", "bounds": [spec["bounds"][p_] for p_ in perm], "shape": [spec["shape"][p_] for p_ in perm],
+               "periodic": [True] * dim}
+        roll = [int(n // 3) for n in shape]
+        for name, sp_v, arr in ((f"permute axes {perm}", sp2, np.ascontiguousarray(np.transpose(data, perm))),
+                                (f"roll by {roll}", spec, np.roll(data, roll, axis=tuple(range(dim)))),
+                                ("scale by -3", spec, -3.0 * data)):
+            cc = common.monitored(rec, "get_structure_factor", sf, field_of(sp_v, arr))
+            if rec.check(cc.ok, "no-exception", f"{name}: raised {cc.exc!r}; {label}"):
+                k2, s2 = (np.asarray(x, float) for x in cc.result)
+                rec.check(k2.shape == k.shape and bool(np.allclose(k2, k, rtol=1e-12, atol=0)) and
+                          bool(np.allclose(s2, s, rtol=0, atol=1e-9 * smax + 1e-13, equal_nan=True)), "invariance",
+                          f"smoothed structure factor of a {shape} grid (default smoothing and wave numbers) changes under "
+                          f"'{name}' by {float(np.nanmax(np.abs(s2 - s))) if s2.shape == s.shape else 'shape'} (max S {smax}); {label}")
+        rec.evaluated(nontrivial=True)
+        rec.count(f"big:dim{dim}|cells:{int(np.prod(shape)) // 10000 * 10000}+")
+        return
     if kind == "raw":
         the_field = field_of(spec, data)
         keep = np.array(the_field.data, copy=True)
@@ -208,6 +243,12 @@ def run(case, rec):
         rec.check(bool(np.allclose(k, kref, rtol=1e-13, atol=0)), "wave-numbers",
                   f"wave numbers differ from |2 pi fftfreq| of the grid (in transform order): max rel err "
                   f"{float(np.max(np.abs(k - kref) / np.maximum(kref, 1e-300))) if k.shape == kref.shape else 'shape'}; {label}")
+        # "no smoothing" can be asked for in several ways (None, "none", a width of zero): the same arrays come back
+        off = [0, 0.0, "none"][case["perm_seed"] % 3]
+        cz = common.monitored(rec, "get_structure_factor", sf, field_of(spec, data), smoothing=off)
+        if rec.check(cz.ok, "no-exception", f"smoothing={off!r} raised {common.exc_text(cz.exc) if cz.exc else ''}; {label}"):
+            rec.check(np.array_equal(np.asarray(cz.result[0], float), k) and np.array_equal(np.asarray(cz.result[1], float), s),
+                      "unsmoothed-variants", f"smoothing={off!r} does not return the unsmoothed structure factor; {label}")
         if data.size <= 144:
             kd, sd = dft_reference(spec, data)
             ok, why = same_spectrum(k, s, kd, sd, rtol=1e-9)
